@@ -2,6 +2,7 @@ package main
 
 import (
 	"fmt"
+	"go/token"
 	"go/types"
 	"os"
 
@@ -369,5 +370,27 @@ func init() {
 			}
 		}
 		fmt.Println("ok", n)
+	}
+}
+
+func init() {
+	dumpers["ifaceeq"] = func(c *Ctx) {
+		for _, fn := range c.ModuleSSAFuncs() {
+			eachInstr(fn, func(in ssa.Instruction) {
+				bin, ok := in.(*ssa.BinOp)
+				if !ok || (bin.Op != token.EQL && bin.Op != token.NEQ) {
+					return
+				}
+				_, xi := bin.X.Type().Underlying().(*types.Interface)
+				_, yi := bin.Y.Type().Underlying().(*types.Interface)
+				if !xi || !yi {
+					return
+				}
+				if isNilConst(bin.X) || isNilConst(bin.Y) {
+					return
+				}
+				fmt.Printf("%s %s: %s  |  %s (%s) vs %s (%s)\n", c.Pos(bin.Pos()), ssaFuncName(fn), bin.String(), bin.X.String(), bin.X.Type(), bin.Y.String(), bin.Y.Type())
+			})
+		}
 	}
 }
